@@ -69,6 +69,10 @@ def _path(clf, X, y=None, alpha_multiplier=1.05, min_features=2, keep_threshold=
     # Start by fitting the model using all features and without regularisation
     alpha = clf.alpha
     initial_alpha = alpha
+    if alpha <= 0:
+        warnings.warn(f"The initial alpha of the model is 0 and cannot be increased by the alpha multiplier, which implies "
+                      f"infinite loop. Starting the path from the default: 1e-2")
+        alpha = 1e-2
     clf.set_params(alpha=0)
 
     if clf.verbose:
